@@ -65,12 +65,23 @@ def gen_defn(rng, kind, i=0):
                         depth=1, n_shared=(1, 3))
         d["large"] = True
         return d
+    if kind == "direct" and i % 8 == 6:
+        return gen.integer_linear_program(rng, n_state=(2, 4), n_control=(0, 2), n_calib=(0, 1), n_sensor=(1, 2),
+                                          n_reading=(2, 3), depth=1, n_shared=(0, 0))
     if kind == "direct" and i % 4 == 3:
         return gen.linear_in_state_program(rng, n_state=(2, 4), n_control=(0, 2), n_calib=(0, 2), n_sensor=(1, 3),
                                            n_reading=(1, 3), depth=1, n_shared=(0, 0))
     if kind == "direct":
-        return gen.program(rng, n_state=(1, 5), n_control=(0, 2), n_calib=(0, 2), n_sensor=(1, 3),
-                           n_reading=(1, 4), depth=2 if rng.random() < 0.6 else 3)
+        d = gen.program(rng, n_state=(1, 5), n_control=(0, 2), n_calib=(0, 2), n_sensor=(1, 3),
+                        n_reading=(1, 4), depth=2 if rng.random() < 0.6 else 3, wraps=(i % 4 == 2))
+        if i % 4 == 2 and d["sensors"]:
+            # an angle folded into range in one reading, with an argument that appears nowhere else
+            sn0 = rng.choice(sorted(d["sensors"]))
+            rn0 = rng.choice(sorted(d["sensors"][sn0]))
+            d["sensors"][sn0][rn0] = ["add", d["sensors"][sn0][rn0],
+                                      [rng.choice(["asinsin", "acoscos", "atantan"]), ["add", ["mul", E.C(3), E.S(rng.choice(d["state"]))], E.F(0.25)]]]
+            d["angle_wrap_reading"] = True
+        return d
     return gen.contractive_program(rng, n_state=(1, 4), n_control=(0, 2), n_calib=(0, 2),
                                    n_sensor=(1, 3), n_reading=(1, 3), depth=1, n_shared=(0, 1))
 
